@@ -41,8 +41,9 @@ def _line(case):
     k = case['kind']
     if k == 'laplacian':
         # laplacian_2D(array, alpha) = convolve(array as double, 3x3 weights(alpha), mode='nearest')
-        return (f"c06 kind=convolve dt=f64 mode=0 shape={gen.enc_shape(case['shape'])} "
-                f"data={core.fmt_floats(_arr(case).astype(np.float64))} wshape=3,3 w={core.fmt_floats(_lap_weights(case['alpha']))}")
+        # the weights are the model's `laplacianWeightsG` (sum 0: C06_laplacian_weights_sum_zero)
+        return (f"c06 kind=laplacian dt=f64 mode=0 shape={gen.enc_shape(case['shape'])} "
+                f"data={core.fmt_floats(_arr(case).astype(np.float64))} alpha={core.fmt_floats([float(case['alpha'])])}")
     dtn = DTN[case['dtype']]
     if k == 'gaussian' and np.dtype(case['dtype']).kind != 'f':
         dtn = 'f64'                                    # _as_floating_point_array: integers are converted to double
@@ -58,14 +59,6 @@ def _line(case):
     if k == 'gaussian':
         return base + f" sigma={core.fmt_floats(case['sigma'])} order={gen.enc_arr(case['order'])}"
     raise ValueError(k)
-
-
-def _lap_weights(alpha):
-    alpha = max(0, min(alpha, 1))
-    vh = (1. - alpha) / (alpha + 1.)
-    dg = alpha / (alpha + 1.)
-    ce = -4. / (alpha + 1.)
-    return [dg, vh, dg, vh, ce, vh, dg, vh, dg]
 
 
 def _wlayout(w, layout):
